@@ -330,6 +330,7 @@ pub fn check_case(door: Door, b: &[u8], case: &mut Case) {
             }
             _ => {}
         },
+        Door::TcpOpts | Door::NdpOpts => {}
     }
 }
 
@@ -342,6 +343,7 @@ pub fn door_class(d: Door) -> &'static str {
         Door::Ipv4Exts(_) => "ipv4exts",
         Door::Ipv6Exts(_) => "ipv6exts",
         Door::Transport(_) => "transport",
+        Door::TcpOpts | Door::NdpOpts => "options",
     }
 }
 
